@@ -45,6 +45,16 @@ fn check(h: &Multiboot2Header, mem: &[u8], tags: &[TagAt], base: usize) -> (Vec<
         .collect();
     let exp: Vec<(usize, u16, u16, u32, usize, usize)> = tags.iter().map(|t| (t.off, t.htyp(), t.hflags(), t.size, t.size as usize - 8, round8(t.size as usize))).collect();
     c.eq("iter", got, exp);
+    // the terminator has no getter: view it through a cast
+    for t in h.iter() {
+        if t.header().typ() == HeaderTagType::End && t.header().size() == 8 {
+            let e = t.cast::<EndHeaderTag>();
+            let off = addr_of(t) - base;
+            c.eq("end.typ", e.typ() as u16, le16(mem, off));
+            c.eq("end.flags", e.flags() as u16, le16(mem, off + 2));
+            c.eq("end.size", e.size(), le32(mem, off + 4));
+        }
+    }
     let first = |ty: u16| tags.iter().find(|t| t.htyp() == ty).copied();
     macro_rules! sel {
         ($name:expr, $ty:expr, $get:expr) => {{
